@@ -3,6 +3,7 @@
 set -e
 cd /verif
 t=$1
+git add -A; git commit -qm "wip before merge" >/dev/null 2>&1 || true
 git merge --no-commit --no-ff agent-$t >/dev/null 2>&1 || true
 # union-resolve known_findings.jsonl
 if git status --short | grep -q "^UU known_findings.jsonl\|^AA known_findings.jsonl"; then
